@@ -30,7 +30,8 @@ import c03
 PID = "C05"
 MODES = ["start", "bounded", "step"]
 # what a failing handler raises: ordinary exceptions and one BaseException subclass that is not an Exception
-KINDS = ["runtime", "value", "key", "zerodiv", "custom", "stopiter", "base", "base"]
+KINDS = ["runtime", "value", "key", "zerodiv", "custom", "stopiter", "base", "base",
+         "keyint", "oserr", "noargs", "tuplearg", "custom2"]      # the last five: arguments that are not one string
 
 
 def truncate(prog):
@@ -153,6 +154,8 @@ def decorate(case, rng, i):
         case["badrepr"] = "long"
     if i % 3 == 1:
         case["loglevel"] = rng.choice(LEVELS)
+    if i % 4 == 2:
+        case["userevents"] = True       # every third event is a user-defined SimEventInterface object
     for body in case["prog"]:
         for a in body:
             if a[0] == "setstrat" and len(a) == 2 and rng.random() < 0.5:
@@ -307,7 +310,8 @@ RULE = ("tree programs (every executed event has its own handler, <= 11 events; 
         "(PAUSE <-> a continue strategy) before a handler fails - judged by the oracle with the strategy in force at the failure, "
         "outside the Coq model (counted as cases_not_representable); a third of the cases (and half of the switches) use the "
         "two-argument form set_error_strategy(strategy, log_level); in a fifth of the cases every other event carries an argument "
-        "object whose repr / str / format raise (a few: a 200 kB slow repr)")
+        "object whose repr / str / format raise (a few: a 200 kB slow repr); in a quarter of the cases every third event is a "
+        "user-defined SimEventInterface object (not a SimEvent) handed to schedule_event; exception arguments also numbers, several, none")
 
 _tier_rng = {}
 
